@@ -143,6 +143,14 @@ def execute(task):
     if task.get("observer"):
         obs = make_rec_observer(ctx)
         progress = Progress(lambda: obs)
+        if task.get("observer") == "html":
+            # a bundled display next to the recording observer: its update thread runs under the scheduler too
+            # (virtual timeouts), its state is shared between the workers that notify it
+            from uberjob.progress import HtmlProgressObserver
+            from functools import partial
+
+            progress = (Progress(lambda: obs), Progress(partial(HtmlProgressObserver, lambda b: None, initial_update_delay=0.01,
+                                                                  min_update_interval=0.01, max_update_interval=0.05)))
         if task.get("observer") == "composite":
             obs2 = make_rec_observer(Ctx2(ctx))
             progress = (Progress(lambda: obs), Progress(lambda: obs2))
